@@ -31,7 +31,9 @@ BAT_ID, INV_ID = 9, 8
 OPERATIONAL_BATTERY = {"IDLE", "CHARGING", "DISCHARGING"}
 OPERATIONAL_RELAY = {"CLOSED"}
 OPERATIONAL_INVERTER = {"STANDBY", "IDLE", "CHARGING", "DISCHARGING"}
-MIN_BLOCK = 1 * SEC  # property: "blocking period that doubles … up to the maximum"; the SDK starts at 1 s
+# The property does not fix the first blocking period ("a blocking period that doubles … up to the maximum"); it is a
+# parameter like max_data_age: read from the tracker under test when one is created (the SDK uses 1 s).
+MIN_BLOCK = 1 * SEC
 
 NW, UN, WK = "NOT_WORKING", "UNCERTAIN", "WORKING"
 
@@ -44,6 +46,9 @@ class _Repo:
     def load(cls) -> None:
         if cls.loaded:
             return
+        import warnings
+
+        warnings.filterwarnings("ignore", category=DeprecationWarning)
         import async_solipsism  # noqa: F401
         import time_machine  # noqa: F401
         from frequenz.channels import Broadcast
@@ -193,6 +198,8 @@ def new_tracker(case: dict, sender: Any, sp_rx: Any, bat_id: int = BAT_ID) -> An
     # the dataclass default of last_msg_timestamp is the import time of the module: pin it (it is part of the case)
     tr._battery.last_msg_timestamp = dt_of(case["ts0"])  # pylint: disable=protected-access
     tr._inverter.last_msg_timestamp = dt_of(case["ts0"])  # pylint: disable=protected-access
+    global MIN_BLOCK  # pylint: disable=global-statement
+    MIN_BLOCK = int(tr._blocking_status.min_duration / timedelta(microseconds=1))  # pylint: disable=protected-access
     return tr
 
 
@@ -600,6 +607,7 @@ class EventOracle:
 
     def __init__(self, max_age: int, max_blk: int):
         self.max_age, self.max_blk = max_age, max_blk
+        self.min_blk = MIN_BLOCK
         self.status = NW
         self.latest: dict[str, dict | None] = {"bat": None, "inv": None}
         self.streak: tuple[int, int] | None = None  # (k, blocked until)
@@ -607,7 +615,7 @@ class EventOracle:
         self.tags: set[str] = set()
 
     def dur(self, k: int) -> int:
-        return min((2 ** k) * MIN_BLOCK, self.max_blk)
+        return min((2 ** k) * self.min_blk, self.max_blk)
 
     def feed(self, i: int, ev: dict, out: Any) -> None:
         now, k = ev["now"], ev["k"]
@@ -654,18 +662,24 @@ class EventOracle:
                 self.violations.append(("prompt: NOT_WORKING not notified at the disqualifying event", {"i": i}, regime))
         # ---- back-off (closed form)
         if k == "sp":
+            new_block = False
             if ev["succ"]:
                 self.streak = None
             elif ev["fail"] and before != NW:
                 if self.streak is None:
                     self.streak = (0, now + self.dur(0))
                     self.tags.add("block")
+                    new_block = True
                 elif now >= self.streak[1]:
                     kk = self.streak[0] + 1
                     self.streak = (kk, now + self.dur(kk))
                     self.tags.add("doubling" if self.dur(kk) < self.max_blk else "capped")
+                    new_block = True
                 else:
                     self.tags.add("fail-while-blocked")
+            if new_block and after == WK:
+                self.violations.append(("backoff: a failed command left the battery reported WORKING",
+                                        {"i": i, "now": now, "streak": self.streak}, None))
         if before == NW and after != NW:
             if self.streak is not None:
                 self.tags.add("recovery-reset")
